@@ -49,10 +49,10 @@ def main():
     results = []
     for p in patches:
         status, out, dt = run_one(prop, p, tier)
-        first = [l for l in out.splitlines() if l.startswith(("VIOLATION", "  monitor", "INCONCLUSIVE", "KNOWN"))][:3]
+        first = [l for l in out.splitlines() if l.startswith(("VIOLATION", "  monitor", "INCONCLUSIVE"))][:3]
         print("%-14s %-60s %5.1fs %s" % (status, os.path.relpath(p, VERIF), dt, " | ".join(x[:160] for x in first[:2])))
         if verbose or status not in ("CAUGHT",):
-            print("\n".join(out.splitlines()[-15:]))
+            print("\n".join(l[:200] for l in out.splitlines() if not l.startswith("KNOWN-FINDING"))[-1500:])
         results.append((p, status))
     if saved is not None:
         open(ev, "w").write(saved)
